@@ -372,6 +372,7 @@ def catalogue():
                  ([ax("x", min="abc", max="abd")], "bad"), ([ax("x", scale=[])], "bad"), ([ax("x", offset={})], "bad"),
                  ("abc", "bad"), (5, "bad"), ({"name": "x"}, "bad"), ([5], "bad"), (["x"], "bad"), ([None], "bad"),
                  (True, "bad"),
+                 ([ax("x", min=2 ** 53 + 1, max=2 ** 53)], "gray"), ([ax("x", scale="1.5")], "gray"), ([ax("x", offset=True)], "gray"),
                  ([ax("x", min=NAN, max=1.0)], "nan"), ([ax("x", min=0.0, max=NAN)], "nan"),
                  ([ax("x", min=NAN, max=NAN)], "nan")],
         "sphere": [(None, "ok"), ("r", "ok"), ("", "ok"), ("é😀", "ok"), (5, "bad"), ([], "bad"), ({}, "bad"),
